@@ -22,10 +22,10 @@ def gen_cases(run, n, prefix="c"):
     schema = None
     for i in range(n):
         if i % 3 == 0:
-            schema = gen_schema(rng, odd_type_names=(i % 9 == 0))
+            schema = gen_schema(rng, odd_type_names=(i % 6 == 0))
         doc, feats = gen_document(schema, rng)
         opts = {"other_variant": rng.random() < 0.3, "skip_none": rng.random() < 0.2}
-        if rng.random() < 0.2:
+        if rng.random() < 0.3:
             opts["normalization"] = "rust"
         c = C.make_case("%s%d" % (prefix, i), schema, doc, rng, options=opts, features=feats)
         vecs, stats = C.resp_vectors(c, rng, n_payloads=run.size(10, 16), n_corrupt_bases=0)
